@@ -331,3 +331,21 @@ def is_json_compatible(x):
     if type(x) is dict:
         return all(type(k) is str and is_json_compatible(v) for k, v in x.items())
     return False
+
+
+def container_ids(x, acc=None):
+    acc = set() if acc is None else acc
+    if type(x) is dict:
+        acc.add(id(x))
+        for v in x.values():
+            container_ids(v, acc)
+    elif type(x) is list:
+        acc.add(id(x))
+        for v in x:
+            container_ids(v, acc)
+    return acc
+
+
+def disjoint_containers(a, b):
+    """no list / dict object of a is a list / dict object of b (a private deep copy)"""
+    return len(container_ids(a) & container_ids(b)) == 0
